@@ -74,6 +74,13 @@ def r2_no_invented_positions(ctx, rule="C11.R2"):
             n += 1
             owner = prog.enclosing_fn(fn) or fn
             name = owner.path.split("::", 1)[1]
+            if name not in allowed:
+                # moved to another module under its own name
+                moved = [k for ks in gone.values() for k in ks if k.rsplit("::", 1)[1] == name.rsplit("::", 1)[1]]
+                if moved:
+                    old_name = moved[0]
+                    gone[old_name.rsplit("::", 1)[0]].remove(old_name)
+                    allowed[name] = allowed[old_name] + " (tabled as %s)" % old_name
             if name not in allowed and gone.get(name.rsplit("::", 1)[0]):
                 old_name = gone[name.rsplit("::", 1)[0]].pop(0)
                 allowed[name] = allowed[old_name] + " (tabled as %s)" % old_name.rsplit("::", 1)[1]
